@@ -2293,6 +2293,9 @@ Box<ITV>::remove_higher_space_dimensions(const dimension_type new_dimension) {
     return;
   }
 
+  // The emptiness of the box has to be detected now: the empty
+  // interval witnessing it may be one of those that are removed.
+  (void) is_empty();
   seq.resize(new_dimension);
   PPL_ASSERT(OK());
 }
